@@ -31,6 +31,10 @@ VARIANT_FLAGS = {
     'vg': ('verifvg', [
         '-DCMAKE_CXX_FLAGS_VERIFVG=-std=gnu++11 -g -O2 -mavx2 -mfma -DNDEBUG',
         '-DCMAKE_C_FLAGS_VERIFVG=-g -O2 -mavx2 -mfma -DNDEBUG']),
+    # optimised flags without the vector extensions: the scalar code paths compiled with NDEBUG (what an optimised build is on a target without AVX2)
+    'scalar': ('verifscalar', [
+        '-DCMAKE_CXX_FLAGS_VERIFSCALAR=-std=gnu++11 -g -O2 -DNDEBUG',
+        '-DCMAKE_C_FLAGS_VERIFSCALAR=-g -O2 -DNDEBUG']),
     'tsan': ('veriftsan', [
         '-DCMAKE_CXX_FLAGS_VERIFTSAN=-std=gnu++11 -g -O1 -fsanitize=thread',
         '-DCMAKE_C_FLAGS_VERIFTSAN=-g -O1 -fsanitize=thread',
@@ -42,6 +46,7 @@ HARNESS_FLAGS = {
     # the library relies on wrap-around of signed 32-bit arithmetic and on 1<<31: those UBSan checks are not part of C16 and are left off
     'asan': ['-O1', '-g', '-fsanitize=address,bounds,null,alignment,object-size,pointer-overflow,return,vla-bound,bool,enum', '-fno-sanitize-recover=all', '-fno-omit-frame-pointer'],
     'vg': ['-O1', '-g'],
+    'scalar': ['-O1', '-g'],
     'tsan': ['-O1', '-g', '-fsanitize=thread'],
 }
 
